@@ -633,7 +633,11 @@ pub fn run_shared(h: &History, seed: u64) -> SharedRun {
         Some(n) => SchedMode::Bernoulli(n),
         None => SchedMode::Never,
     };
-    let sched = ex.ctx.install_sched(Sched::new(mode, AuditMode::None, Rng::stream(seed, "sched")));
+    let mut sc = Sched::new(mode, AuditMode::None, Rng::stream(seed, "sched"));
+    // C11 is about what requests leave behind, not about collection density: a history gets at most this many
+    // collections inside its requests (one in 60 000 quick histories used to take two minutes at 500 per mille)
+    sc.max_collections = 20_000;
+    let sched = ex.ctx.install_sched(sc);
     let mut r = SharedRun { outs: Vec::new(), resolved: Vec::new(), limits: Vec::new(), depths: Vec::new(), import_faults_fired: Vec::new(), native_faults_fired: Vec::new(), gcs_inside: 0, log: String::new(), over_budget: false };
     for (i, op) in h.ops.iter().enumerate() {
         r.limits.push(ex.max_stack);
@@ -1083,6 +1087,25 @@ struct One {
 }
 
 fn one_run(root: u64, i: u64, want_sample: bool) -> One {
+    // VERIF_SLOW=<ms> (debugging aid, wall clock is read only for this report): name histories slower than that
+    let slow_ms: Option<u128> = std::env::var("VERIF_SLOW").ok().and_then(|s| s.parse().ok());
+    let t0 = slow_ms.map(|_| std::time::Instant::now());
+    let r = one_run_inner(root, i, want_sample);
+    if let (Some(ms), Some(t0)) = (slow_ms, t0) {
+        let el = t0.elapsed().as_millis();
+        if el >= ms {
+            eprintln!("slow history {i}: {el} ms, {} requests", r.requests);
+            if std::env::var("VERIF_SLOW_DUMP").is_ok() {
+                let seed = crate::rng::run_seed(root, "sim-hist", i);
+                let h = gen_history(seed, i % 2 == 1);
+                eprintln!("{}", history_to_json(&h).to_string());
+            }
+        }
+    }
+    r
+}
+
+fn one_run_inner(root: u64, i: u64, want_sample: bool) -> One {
     let seed = crate::rng::run_seed(root, "sim-hist", i);
     // fault-free and fault-injecting histories are separate configurations
     let with_faults = i % 2 == 1;
